@@ -60,7 +60,7 @@ def specs():
 
 READS = [
     "variables", "fluxes", "rhs", "args_all", "producers", "consumers_scaled", "producers_scaled", "consumers",
-    "fluxes_norm_scalar", "variables_norm_segments_split", "fluxes_norm_rows", "rhs_norm_rows_split", "new_y0", "combined", "raw_variables_only",
+    "fluxes_norm_scalar", "variables_norm_segments_split", "raw_variables_norm_segments", "fluxes_norm_rows", "rhs_norm_rows_split", "new_y0", "combined", "raw_variables_only",
 ]
 
 
@@ -212,6 +212,10 @@ class Views(Scenario):
                 nrm = [ctx.real(f"norm_seg{k}") for k in range(len(self.layout))]
                 dfs = sim.get_variables(normalise=nrm, concatenated=False)
                 self.compare(ctx, tag, dfs, orows, sets["variables"], env, divisor=lambda i, o: nrm[o["seg"]])
+            elif read == "raw_variables_norm_segments":
+                nrm = [ctx.real(f"norm_seg{k}") for k in range(len(self.layout))]
+                df = sim.get_variables(include_derived_variables=False, include_readouts=False, include_surrogate_variables=False, normalise=nrm)
+                self.compare(ctx, tag, df, orows, names, env, divisor=lambda i, o: nrm[o["seg"]])
             elif read == "fluxes_norm_rows":
                 nrm = [ctx.real(f"norm_row{i}") for i in range(total_rows)]
                 arr = np.array(nrm, dtype=object if ctx.symbolic else float)
